@@ -110,6 +110,9 @@ func c08Fixes() map[string]bool {
 	fx["link"] = len(links) == 1 && links[0].Range.Start.Character == 8
 	folds, _ := srv.FoldingRanges(ctx, &protocol.FoldingRangeParams{TextDocumentPositionParams: protocol.TextDocumentPositionParams{TextDocument: td}})
 	fx["fold"] = len(folds) >= 1 && folds[0].StartLine == 1 && folds[0].EndLine == 3
+	// fix-utf16-columns.diff: columns count UTF-16 units ("; 😀" ends at column 5, not 4)
+	toks := parser.NewLexer("; \U0001F600")
+	fx["utf16"] = toks.Next().End.Column == 5
 	c08Fx = fx
 	return fx
 }
